@@ -148,3 +148,4 @@ class FileBasedCollectionMetadata(CollectionMetadata):
             self._configparser["calendar"].pop("order", None)
         else:
             self._configparser["calendar"]["order"] = order
+        self._save("Set calendar order.")
